@@ -129,8 +129,15 @@ func (x *Exec) cover(st *State, fr *Frame, what string, in interface{}, desc str
 func (x *Exec) symbolicParam(st *State, fn *ssa.Function, p *ssa.Parameter) Val {
 	T := p.Type()
 	name := "p_" + sanitize(p.Name())
+	if p.Name() == "_" || p.Name() == "" {
+		for i, q := range fn.Params {
+			if q == p {
+				name = fmt.Sprintf("p_blank%d", i)
+			}
+		}
+	}
 	if sig, ok := T.Underlying().(*types.Signature); ok {
-		n := name + "_isnil"
+		n := name + "_isnil_" + sanitize(strings.ReplaceAll(funcKey(fn), ".", "_"))
 		x.reg.declConst(n, "Bool")
 		return &FuncParam{Name: p.Name(), Sig: sig, Nil: n}
 	}
